@@ -358,17 +358,20 @@ def c16(tier, seed):
 
 def c05(tier, seed):
     obs = []
-    fields = [("threshold", 0, 4, True, "q"), ("x", 8, 32, False, "t"), ("y", 32, 56, False, "t"), ("c", 60, 62, True, "t"), ("d", 66, 68, True, "t"), ("j", 68, 132, True, "t")]
+    fields = [("threshold", 0, 4, True, "t"), ("c", 60, 62, True, "t"), ("d", 66, 68, True, "t"), ("j", 68, 132, True, "q")]
     for name, lo, hi, rej, q in fields:
         def tc(o, info, lo=lo, hi=hi, rej=rej):
             v = lay(info, [("m", 2), ("r", 2), ("nbs", 64)])
             return [{"kind": "adss_scenario", "m": v["m"].hex(), "r": v["r"].hex(), "t": 1, "n_shares": 1, "fault_lo": lo, "fault_hi": hi,
                      "fault_bytes": v["nbs"][:hi - lo].hex(), "must_reject": rej}] if v else []
-        obs.append(K("c16b::c05_fault_" + name, tier=q, cap=2400, mem=50, must_cover=["rejected"],
+        obs.append(K("c16b::c05_fault_" + name, tier=q, cap=2400, mem=30, must_cover=["rejected"],
                      claim="the %s field of the ciphertext-supplying share replaced by arbitrary different content: recovery returns an error%s" % (name, "" if rej else " or exactly the shared message"),
-                     bounds="honest threshold-1 sharing of 2-byte message and coins; the whole field arbitrary (subsumes every bit/byte fault)", stubs=ADSS,
+                     bounds="honest threshold-1 sharing of 2-byte message and coins; the whole field arbitrary (subsumes every bit/byte fault); the Shamir layer returns an arbitrary key (so the claim holds for every accompanying share set); altered x / y only change that key and are covered by c05_any_interpolated_key", stubs=ADSS + ["Sharks::recover -> arbitrary Ok(24 bytes) / Err", "the encoded share is assembled from the permutation log (faithfulness: c05_fault_model_faithful)"],
                      functions=["adss::recover", "adss::Commune::verify", "adss::Share::from_bytes"], to_case=tc))
-    obs.append(K("c16b::c05_any_interpolated_key", tier="q", cap=2400, mem=50, must_cover=["rejected"],
+    obs.append(K("c16b::c05_fault_model_faithful", tier="q", cap=900, mem=20, must_cover=["reached"],
+                 claim="the share encoding assembled from the permutation log in the fault harnesses is byte-for-byte the real `share().to_bytes()`",
+                 bounds="2-byte message/coins, t = 1", stubs=ADSS, functions=["adss::Commune::share", "adss::Share::to_bytes"]))
+    obs.append(K("c16b::c05_any_interpolated_key", tier="q", cap=2400, mem=30, must_cover=["rejected", "accepted with the original message"],
                  claim="whatever key the Shamir layer hands back (any mixture of foreign, altered, repeated, surplus points): the result is an error or exactly the message of the first share's sharing",
                  bounds="honest threshold-2 sharing of 2-byte message/coins; interpolated key = arbitrary 24 bytes or error", stubs=ADSS + ["Sharks::recover -> arbitrary Ok(24 bytes) / Err"],
                  functions=["adss::recover", "adss::Commune::verify"],
@@ -447,7 +450,32 @@ def c03(tier, seed):
     }
 
 
-TABLE = {"C09": c09, "C07": c07, "C06": c06, "C08": c08, "C04": c04, "C16": c16, "C05": c05, "C02": c02, "C03": c03}
+def c01(tier, seed):
+    obs = []
+    for h in ("c01_framing_3_2", "c01_framing_0_0", "c01_framing_3_none"):
+        obs.append(K("c03::" + h, cap=300, must_cover=["reached"],
+                     claim="payload framing len|measurement [len|aux]: parses back to exactly the measurement and the associated data; absent and empty associated data are distinguishable",
+                     bounds="measurement / aux up to 4 bytes", functions=["store_bytes", "load_bytes"]))
+    obs.append(K("c03::c03_masking_12", cap=400, must_cover=["reached"], claim="Ciphertext::decrypt under the same key inverts Ciphertext::new", bounds="12-byte payload", stubs=STROBE))
+    obs.append(K("c03::c04_ske_sep_1_1", cap=400, must_cover=["equal", "different"], claim="the server re-derives the clients' payload key from (recovered message, epoch): derive_ske_key is a function of exactly these", bounds="see C04", stubs=STROBE))
+    obs.append(K("c16::c08_honest_roundtrip_1_1", cap=900, mem=30, must_cover=["reached"], claim="an honestly generated share survives encode -> decode unchanged", bounds="see C08", stubs=ADSS))
+    obs.append(K("c16b::c16_structure_m4_r4_t2", cap=600, must_cover=["reached"], claim="all clients of one (threshold, message, coins) sharing hold points of one polynomial (coefficients and C, D, J do not depend on the client's OS draw)", bounds="see C16", stubs=ADSS))
+    obs.append(M("mir::recover-structure", "any selection containing t distinct shares reaches interpolation with exactly the first t distinct ones: order, repeated and surplus reports do not matter", bounds="n <= 3/4"))
+    obs.append(K("c06::c06_interpolate_t2", cap=300, must_cover=["reached"], claim="interpolation of t distinct points is the Lagrange value at 0", bounds="t=2, GF(13)", stubs=SF))
+    obs.append(K("c06::c06_interpolate_t3", cap=600, tier="t", must_cover=["reached"], claim="as above", bounds="t=3, GF(13)", stubs=SF))
+    for h in ("c16_recover_t1_m1_r1",):
+        obs.append(K("c16b::" + h, tier="t", cap=2400, mem=50, must_cover=["reached"], claim="threshold 1: share -> recover returns exactly the message", bounds="see C16", stubs=ADSS))
+    return {
+        "obligations": obs, "level": "model_checking",
+        "bounds": "component bounds of C03/C04/C06/C08/C16",
+        "outside": "the end-to-end run generate -> to_bytes -> from_bytes -> share_recover -> derive key -> decrypt is NOT a single solver query (about 40 permutation calls plus two encode/decode passes exceeded 30 GB); what is decided are its components, listed here; their composition (the report's key is derive_ske_key(r0, epoch), r0 is the ADSS message, the ADSS key is the Shamir secret) is by reading Message::generate; thresholds > 3; payloads > 170 bytes; the randomness-server source (only where the 32 bytes come from)",
+        "assumptions": ["Keccak-f as collision-free random oracle", "composition of the component claims as argued in DESIGN.md section 4"],
+        "trusted_base": ["Kani / CBMC", "/verif/mirsmt"],
+        "explanation": "component obligations of threshold recovery; see DESIGN.md for the composition argument",
+    }
+
+
+TABLE = {"C09": c09, "C07": c07, "C06": c06, "C08": c08, "C04": c04, "C16": c16, "C05": c05, "C02": c02, "C03": c03, "C01": c01}
 
 
 def get(pid, tier, seed):
